@@ -64,6 +64,11 @@ def build_state(case):
         c.train_inverse = (th + th.T) / 2
         B = rng.normal(size=(nw, max(1, nw // (1 + int(rng.integers(0, 3))))))
         c.empirical_covariance = (B @ B.T / nw) * case["cov_scale"]
+        if case.get("tiny_variable") and nw >= 2:
+            # one variable ~1e-130 times smaller than the others: its products with Theta are subnormal or underflow to 0
+            sc = np.ones(nw)
+            sc[int(rng.integers(0, nw))] = 1e-130
+            c.empirical_covariance = c.empirical_covariance * sc[:, None] * sc[None, :]
         c.stacked_data_mean = np.zeros(nw)
     return st, labels
 
@@ -97,6 +102,8 @@ def check_synth(res, case):
         res.nontriv(common.h(case))
     if case["straddle"]:
         res.count("states_straddling_threshold")
+    if case.get("tiny_variable"):
+        res.count("states_with_a_tiny_variable")
 
 
 def run_synth(spec, res):
@@ -106,7 +113,7 @@ def run_synth(spec, res):
         case = dict(what="synth", rng=[int(v) for v in spec["seed"]] + [i], nw=nw, W=W, K=int(rng.integers(1, 6)), T=int(rng.integers(2, 120)),
                     pattern=["one_run", "alternating", "unused", "blocks", "random"][int(rng.integers(0, 5))],
                     scale=float(rng.choice([1e-7, 1e-3, 1.0, 1e3, 1e7])), cov_scale=float(10 ** rng.uniform(-6, 6)),
-                    straddle=bool(rng.random() < 0.4))
+                    straddle=bool(rng.random() < 0.4), tiny_variable=bool(i % 5 == 2))
         check_synth(res, case)
         if i == 0:
             res.sample(case)
@@ -131,5 +138,6 @@ def finalize(merged, tier):
     ec.min_counter(merged, out, "bic_checked", 60 if tier == "quick" else 700)
     ec.min_counter(merged, out, "synthetic_states_checked", 150 if tier == "quick" else 2500)
     ec.min_counter(merged, out, "states_straddling_threshold", 40 if tier == "quick" else 600)
+    ec.min_counter(merged, out, "states_with_a_tiny_variable", 25 if tier == "quick" else 400)
     ec.unexpected(merged, out)
     return out
